@@ -15,7 +15,7 @@
 (* A B-sum is a sequence of <<n, d, k, t>>: the same with a symbolic       *)
 (* factor B[t] (t = 0: no factor) -- the uninterpreted Planck table.       *)
 (***************************************************************************)
-EXTENDS Integers, Sequences, FiniteSets, Rat
+EXTENDS Integers, Sequences, FiniteSets, SequencesExt, Rat
 
 LCM(a, b) == (a * b) \div GCD(a, b)
 
@@ -42,8 +42,8 @@ RECURSIVE DPow(_, _)
 DPow(a, p) == IF p = 0 THEN DConst(<<1, 1>>) ELSE DMul(a, DPow(a, p - 1))
 
 \* ------------------------------------------------------------------ sign
-RECURSIVE DLcm(_)
-DLcm(a) == IF a = <<>> THEN 1 ELSE LCM(Head(a)[2], DLcm(Tail(a)))
+\* (folds are evaluated by the CommunityModules' Java override: no deep interpreter recursion on long sums)
+DLcm(a) == FoldLeft(LAMBDA acc, x : LCM(acc, x[2]), 1, a)
 
 Pow2Int(g) == Pow(2, g)
 \* floor(q / 2^g) and divisibility, safe for any gap g (|q| < 2^30 is checked by DFits)
@@ -54,10 +54,7 @@ FloorDivP2(q, g) == IF g >= 30 THEN (IF q >= 0 THEN 0 ELSE -1)
 DivisP2(q, g) == IF g >= 30 THEN q = 0 ELSE (q % Pow2Int(g)) = 0
 
 \* integer coefficient (after multiplying everything by L) of exponent k
-RECURSIVE DCoefAt(_, _, _)
-DCoefAt(a, L, k) == IF a = <<>> THEN 0
-                    ELSE (IF Head(a)[3] = k THEN Head(a)[1] * (L \div Head(a)[2]) ELSE 0)
-                         + DCoefAt(Tail(a), L, k)
+DCoefAt(a, L, k) == FoldLeft(LAMBDA acc, x : acc + (IF x[3] = k THEN x[1] * (L \div x[2]) ELSE 0), 0, a)
 DExps(a) == {a[i][3] : i \in 1..Len(a)}
 
 \* carry propagation: at exponent kcur the tail sum is q + f, f in [0,1), z <=> f = 0
@@ -81,10 +78,9 @@ DEq(a, b) == DSign(DSub(a, b)) = 0
 DLe(a, b) == DSign(DSub(b, a)) >= 0
 DLt(a, b) == DSign(DSub(b, a)) > 0
 
-\* guard against 32-bit wrap in the sign computation: |coefficients * L| stay far below 2^30
-RECURSIVE DAbsSum(_, _)
-DAbsSum(a, L) == IF a = <<>> THEN 0 ELSE Abs(Head(a)[1]) * (L \div Head(a)[2]) + DAbsSum(Tail(a), L)
-DFits(a) == a = <<>> \/ (DLcm(a) < 32768 /\ DAbsSum(a, DLcm(a)) < 16777216)
+\* guard against 32-bit wrap in the sign computation: |coefficients * L| stay below 2^28
+DAbsSum(a, L) == FoldLeft(LAMBDA acc, x : acc + Abs(x[1]) * (L \div x[2]), 0, a)
+DFits(a) == a = <<>> \/ (DLcm(a) < 32768 /\ DAbsSum(a, DLcm(a)) < 268435456)
 
 \* ---------------------------------------------------------------- B-sums
 BTerm(r, k, t) == IF r[1] = 0 THEN <<>> ELSE << <<r[1], r[2], k, t>> >>
